@@ -613,11 +613,11 @@ impl Check for C04 {
              kind word / 160-bit-masked word / dynamic array / mapping of depth 1-4 over all key-kind vectors {{address, word, small literal}}^depth with \
              plain or 160-bit-masked value, at 6 slots (0, 1, 5, 77, 2^64+3, 2^200) x 3 access modes (read, write, both; each access \
              in its own dispatcher branch; packed words additionally with one store that writes all fields at once, ORs \
-             associated either way) x 4 spellings (mul/shl packing, shr/div unpacking, mask on either side of AND, hash on \
+             associated either way) x 5 spellings (mul/shl packing, shr/div unpacking, mask on either side of AND, a uniform accessor that also shifts the field at bit 0 by zero, hash on \
              either side of ADD); all {} splits of a 32-byte word into 2..{} fields at byte boundaries as packed variables; dynamic arrays whose keccak(slot) is \
              pre-folded into a PUSH constant at EVERY slot 0..9999 (the range the tool documents) x read / write x constant on either \
              side of ADD; contracts of 4, 7 and 12 variables (3, 6 or 11 variables of one of 8 kinds incl. a six-field packed word at consecutive slots, read or read and written, next to one variable of each representative kind); all ordered \
-             pairs{} of 7 representative kinds at all ordered slot pairs x 9 mode pairs x 4 spellings. Oracle: an entry at exactly the \
+             pairs{} of 7 representative kinds at all ordered slot pairs x 9 mode pairs x 5 spellings. Oracle: an entry at exactly the \
              slot whose kind matches (mapping nested to the right depth, dynamic array, packed fields at the right bit offsets with \
              the right widths, 20-byte quantity for 160-bit-masked words / keys / values). non-trivial = every generated program; \
              distinct by ground truth and spelling",
